@@ -68,7 +68,7 @@ pub fn pat(x: u64) -> u8 {
     ((x.wrapping_mul(31)).wrapping_add((x >> 8).wrapping_mul(17)).wrapping_add(7) & 0xff) as u8
 }
 
-fn fields_to_map(v: &Value) -> http::HeaderMap {
+pub fn fields_to_map(v: &Value) -> http::HeaderMap {
     let mut m = http::HeaderMap::new();
     if let Some(a) = v.as_array() {
         for f in a {
@@ -753,7 +753,7 @@ fn client_task(tc: TaskCtx, net: Net, cfg: Cfg, cmds: CmdQueue, sender_slot: Rc<
     })
 }
 
-fn build_request(op: &Value) -> Result<http::Request<()>, String> {
+pub fn build_request(op: &Value) -> Result<http::Request<()>, String> {
     let method = http::Method::from_bytes(&bytes_of(&op["method"])).map_err(|e| e.to_string())?;
     let uri: http::Uri = http::Uri::try_from(bytes_of(&op["uri"])).map_err(|e| e.to_string())?;
     let mut b = http::Request::builder().method(method).uri(uri);
